@@ -31,3 +31,217 @@ func vpH_C11_validHex() {
 	vpAssert(got == vpAnd(n == want, vpAllBytesIn(s, "0123456789abcdef")), "C11.validHex")
 	vpReach("end")
 }
+
+func init() {
+	vpHarnesses["vpH_C11_naddr"] = vpH_C11_naddr
+	vpHarnesses["vpH_C11_structs"] = vpH_C11_structs
+	vpHarnesses["vpH_C11_label"] = vpH_C11_label
+}
+
+const vpHex64 = "aaaaaaaaaaaaaaaaaaaaaaaaaaaaaaaaaaaaaaaaaaaaaaaaaaaaaaaaaaaaaaaa"
+const vpHex128 = vpHex64 + vpHex64
+
+// C11 O1: an 'a' address kind:pubkey:d is valid for ANY d (d may contain ':'),
+// iff kind is a decimal in 0..65535 and pubkey is 64 lower-case hex characters.
+func vpH_C11_naddr() {
+	kinds := []string{"0", "1", "30000", "65535", "65536", "-1", "", "x", "99999999999999999999"}
+	kindOK := []bool{true, true, true, true, false, false, false, false, false}
+	ki := vpChoice("kind", len(kinds))
+	var s string
+	want := false
+	switch vpChoice("shape", 4) {
+	case 0: // kind:pubkey:d with one pubkey byte free (first, middle or last) and d free (may contain ':')
+		pos := []int{0, 31, 63}[vpChoice("pos", 3)]
+		p := vpHex64[:pos] + vpString("pkbyte", 1) + vpHex64[pos+1:]
+		d := vpString("d", vpChoice("dlen", 4))
+		s = kinds[ki] + ":" + p + ":" + d
+		want = vpAnd(kindOK[ki], vpAllBytesIn(p, "0123456789abcdef"))
+	case 1: // short pubkey
+		s = kinds[ki] + ":" + vpHex64[:63] + ":" + vpString("d", 1)
+		// (a ':' in d does not change the verdict: the pubkey is too short either way)
+	case 2: // two parts only
+		s = kinds[ki] + ":" + vpHex64
+	case 3: // valid address whose d is long and starts with a free byte
+		s = kinds[ki] + ":" + vpHex64 + ":" + vpString("d", 1) + "tail:with:colons"
+		want = kindOK[ki]
+	}
+	vpAssert(validNaddr(s) == want, "C11.validNaddr")
+	vpReach("end")
+}
+
+func vpLeafHex(name string, n int) (string, bool) {
+	good := vpHex128[:n]
+	switch vpChoice(name, 5) {
+	case 0:
+		return good, true
+	case 1:
+		return good[:n-1], false
+	case 2:
+		return good + "a", false
+	case 3:
+		return "A" + good[1:], false
+	default:
+		return good[:n-1] + "g", false
+	}
+}
+
+// C11 O2: structure validators against the statement's conjunction. Leaves are
+// representative (the hex validators are decided for all bytes above); kinds,
+// since, until, limit are free integers.
+func vpH_C11_structs() {
+	switch vpChoice("what", 3) {
+	case 0: // Event.Valid
+		id, idOK := vpLeafHex("id", 64)
+		pk, pkOK := vpLeafHex("pubkey", 64)
+		sig, sigOK := vpLeafHex("sig", 128)
+		kind := vpInt64("kind")
+		e := &Event{ID: id, Pubkey: pk, Sig: sig, Kind: kind, CreatedAt: vpInt64("created_at"), Content: vpString("content", 2)}
+		tagsOK := true
+		switch vpChoice("tags", 5) {
+		case 0:
+			tagsOK = false // tags absent (nil): a missing member
+		case 1:
+			e.Tags = []Tag{}
+		case 2:
+			e.Tags = []Tag{{vpSym1("name"), vpSym1("value"), "x"}, {"e"}}
+		case 3:
+			e.Tags = []Tag{{"p", "v"}, {}}
+			tagsOK = false // an empty tag array: Match and the index rely on tag[0]
+		case 4:
+			e.Tags = []Tag{{""}}
+			tagsOK = false // empty tag name
+		}
+		want := vpAnd(vpAnd(idOK, pkOK), vpAnd(sigOK, vpAnd(0 <= kind, kind <= 65535)))
+		want = vpAnd(want, tagsOK)
+		vpAssert(e.Valid() == want, "C11.event-valid")
+		var msg ClientMsg = &ClientEventMsg{Event: e}
+		if vpChoice("auth", 2) == 1 {
+			msg = &ClientAuthMsg{Event: e}
+		}
+		vpAssert(ValidClientMsg(msg) == want, "C11.event-msg-valid")
+	case 1: // ReqFilter.Valid inside REQ / COUNT
+		f := &ReqFilter{}
+		want := true
+		if vpChoice("hasids", 2) == 1 {
+			v, ok := vpLeafHex("fid", 64)
+			f.IDs = []string{vpHex64, v}
+			want = vpAnd(want, ok)
+		}
+		if vpChoice("hasauthors", 2) == 1 {
+			v, ok := vpLeafHex("fauthor", 64)
+			f.Authors = []string{v}
+			want = vpAnd(want, ok)
+		}
+		if vpChoice("haskinds", 2) == 1 {
+			k := vpInt64("fkind")
+			f.Kinds = []int64{1, k}
+			want = vpAnd(want, vpAnd(0 <= k, k <= 65535))
+		}
+		switch vpChoice("tags", 6) {
+		case 1:
+			v, ok := vpLeafHex("etag", 64)
+			f.Tags = map[string][]string{"e": {v}}
+			want = vpAnd(want, ok)
+		case 2:
+			v, ok := vpLeafHex("ptag", 64)
+			f.Tags = map[string][]string{"p": {v}, "t": {"anything"}}
+			want = vpAnd(want, ok)
+		case 3:
+			f.Tags = map[string][]string{"a": {"30000:" + vpHex64 + ":d"}}
+		case 4:
+			n := vpSym1("tagname")
+			f.Tags = map[string][]string{n: {"x"}}
+			c := n[0]
+			vpAssume(c != 'e' && c != 'p' && c != 'a')
+			want = vpAnd(want, vpOr(vpAnd('a' <= c, c <= 'z'), vpAnd('A' <= c, c <= 'Z')))
+		case 5:
+			f.Tags = map[string][]string{"ab": {"x"}}
+			want = false // tag filters are single letters
+		}
+		if vpChoice("hassince", 2) == 1 {
+			v := vpInt64("since")
+			f.Since = &v
+			want = vpAnd(want, v >= 0)
+		}
+		if vpChoice("hasuntil", 2) == 1 {
+			v := vpInt64("until")
+			f.Until = &v
+			want = vpAnd(want, v >= 0)
+		}
+		if f.Since != nil && f.Until != nil {
+			vpAssume(*f.Since <= *f.Until) // since > until: not claimed either way
+		}
+		if vpChoice("haslimit", 2) == 1 {
+			v := vpInt64("limit")
+			f.Limit = &v
+			want = vpAnd(want, v >= 0)
+		}
+		vpAssert(f.Valid() == want, "C11.filter-valid")
+		nf := vpChoice("nfilters", 3) // 0: no filter (arity), 1, 2 (second one valid)
+		var fs []*ReqFilter
+		if nf >= 1 {
+			fs = append(fs, f)
+		}
+		if nf == 2 {
+			fs = append(fs, &ReqFilter{})
+		}
+		var msg ClientMsg = &ClientReqMsg{SubscriptionID: vpString("sub", 1), ReqFilters: fs}
+		if vpChoice("count", 2) == 1 {
+			msg = &ClientCountMsg{SubscriptionID: vpString("sub", 1), ReqFilters: fs}
+		}
+		vpAssert(ValidClientMsg(msg) == vpAnd(want, nf >= 1), "C11.req-msg-valid")
+	case 2:
+		vpAssert(ValidClientMsg(&ClientCloseMsg{SubscriptionID: vpString("sub", 1)}), "C11.close-valid")
+		vpAssert(!ValidClientMsg(nil), "C11.nil-invalid")
+	}
+	vpReach("end")
+}
+
+// C11 O3: a well-formed text - insignificant JSON whitespace before '[' and
+// before the label allowed - is dispatched to the decoder its label names;
+// anything dispatched carries that label. The five decoders are recording stubs.
+func vpH_C11_label() {
+	labels := []string{"EVENT", "REQ", "CLOSE", "AUTH", "COUNT", "event", "NOTICE", ""}
+	li := vpChoice("label", len(labels))
+	ws1 := vpString("ws1", vpChoice("ws1len", 3))
+	ws2 := vpString("ws2", vpChoice("ws2len", 3))
+	vpAssume(vpAllBytesIn(ws1, " \t\n\r"))
+	vpAssume(vpAllBytesIn(ws2, " \t\n\r"))
+	evJSON := `{"id":"` + vpHex64 + `","pubkey":"` + vpHex64 + `","created_at":1,"kind":1,"tags":[],"content":"","sig":"` + vpHex128 + `"}`
+	rest := map[string]string{"EVENT": "," + evJSON + "]", "AUTH": "," + evJSON + "]", "REQ": `,"x",{}]`, "COUNT": `,"x",{}]`, "CLOSE": `,"x"]`}[labels[li]]
+	if rest == "" {
+		rest = `,"x"]`
+	}
+	text := ws1 + "[" + ws2 + "\"" + labels[li] + "\"" + rest
+	called := ""
+	if vpSymbolic() {
+		vpStub("(*github.com/high-moctane/mocrelay.ClientEventMsg).UnmarshalJSON", func(m *ClientEventMsg, b []byte) error { called = "EVENT"; return nil })
+		vpStub("(*github.com/high-moctane/mocrelay.ClientReqMsg).UnmarshalJSON", func(m *ClientReqMsg, b []byte) error { called = "REQ"; return nil })
+		vpStub("(*github.com/high-moctane/mocrelay.ClientCloseMsg).UnmarshalJSON", func(m *ClientCloseMsg, b []byte) error { called = "CLOSE"; return nil })
+		vpStub("(*github.com/high-moctane/mocrelay.ClientAuthMsg).UnmarshalJSON", func(m *ClientAuthMsg, b []byte) error { called = "AUTH"; return nil })
+		vpStub("(*github.com/high-moctane/mocrelay.ClientCountMsg).UnmarshalJSON", func(m *ClientCountMsg, b []byte) error { called = "COUNT"; return nil })
+	}
+	msg, err := ParseClientMsg([]byte(text))
+	if !vpSymbolic() {
+		// natively the real decoders run on the complete message
+		if li < 5 {
+			vpAssert(err == nil && msg != nil && msg.ClientMsgLabel() == labels[li], "C11.label-dispatch")
+			if err == nil && msg != nil {
+				vpAssert(ValidClientMsg(msg), "C11.dispatched-message-valid")
+			}
+		} else {
+			vpAssert(err != nil, "C11.unknown-label-rejected")
+		}
+		vpReach("end")
+		return
+	}
+	if li < 5 {
+		vpAssert(err == nil && called == labels[li], "C11.label-dispatch")
+		if err == nil {
+			vpAssert(msg.ClientMsgLabel() == labels[li], "C11.dispatched-type-matches-label")
+		}
+	} else {
+		vpAssert(err != nil && called == "", "C11.unknown-label-rejected")
+	}
+	vpReach("end")
+}
